@@ -31,21 +31,22 @@ namespace igris
             memset(_data, 0, sizeof(_data));
         }
 
-        static_vector(const static_vector &other)
+        // The copying constructors delegate to the default constructor: the
+        // object is then complete, and if an element constructor throws,
+        // ~static_vector() destroys the elements appended so far.
+        static_vector(const static_vector &other) : static_vector()
         {
-            m_size = other.m_size;
-            for (std::size_t pos = 0; pos < m_size; ++pos)
+            for (std::size_t pos = 0; pos < other.m_size; ++pos)
             {
-                new (&_data[pos]) T(other[pos]);
+                push_back(other[pos]);
             }
         }
 
-        static_vector(static_vector &&other)
+        static_vector(static_vector &&other) : static_vector()
         {
-            m_size = other.m_size;
-            for (std::size_t pos = 0; pos < m_size; ++pos)
+            for (std::size_t pos = 0; pos < other.m_size; ++pos)
             {
-                new (&_data[pos]) T(std::move(other[pos]));
+                emplace_back(std::move(other[pos]));
             }
             other.clear();
         }
